@@ -37,6 +37,31 @@ CdfOk(ens, t, c) == IF Mem(ens) = <<>> THEN IsNaN(c) ELSE Ge(c, FracBelow(ens, t
 Pit(ens, o) == IF IsNaN(o) THEN NaN ELSE Frac(Cardinality({k \in DOMAIN ens : Lt(ens[k], o)}), Len(ens))
 CdfMonotone(ens, ts) == \A a, b \in DOMAIN ts : Le(ts[a], ts[b]) => (Mem(ens) = <<>> \/ Le(FracAtOrBelow(ens, ts[a]), FracAtOrBelow(ens, ts[b])))
 
+\* ---- window: from every lead time on, for how long the value accumulated from there stays in the event (a dry spell: -b below= -r 0) ----
+\* one threshold, hence the four one-sided bin types; a missing start has no window; an accumulation through a missing value is in no event
+WindowTypes == {"below", "below=", "above", "above="}
+WinIn(bt, x, t) == ~IsNaN(x) /\ (CASE bt = "below" -> Lt(x, t) [] bt = "below=" -> Le(x, t) [] bt = "above" -> Gt(x, t) [] OTHER -> Ge(x, t))
+\* as the script counts it: the number q of lead times from o on at which the accumulation is in the event; the window reaches q steps ahead
+\* (to the last lead time at most) and is reported as a difference of lead times
+WinCount(s, o, bt, t) == Cardinality({k \in o..Len(s) : WinIn(bt, SumRange(s, o, k, FALSE), t)})
+WindowSeries(s, leads, bt, t) ==
+  [o \in DOMAIN s |-> IF IsNaN(s[o]) THEN NaN
+                      ELSE LET e == IF o + WinCount(s, o, bt, t) > Len(s) THEN Len(s) ELSE o + WinCount(s, o, bt, t)
+                           IN  R(leads[e] - leads[o])]
+WindowScript(C, nt, nl, ns, leads, bt, t) ==
+  [p \in DOMAIN C |-> WindowSeries([j \in 1..nl |-> C[<<p[1], j, p[3]>>]], leads, bt, t)[p[2]]]
+\* the documented reading ("the length of time that a parameter is below a threshold"): for amounts that cannot be negative and the
+\* below types the counted lead times are consecutive, so the window ends at the first lead time at which the accumulation has left the
+\* event (or at the last lead time); a window is never negative and never longer than the rest of the series
+WindowIsSpell(s, bt, t) ==
+  ((\A k \in DOMAIN s : IsNaN(s[k]) \/ Ge(s[k], Zero)) /\ bt \in {"below", "below="}) =>
+     \A o \in DOMAIN s : ~IsNaN(s[o]) =>
+        LET q == WinCount(s, o, bt, t) IN
+        /\ \A k \in o..(o + q - 1) : WinIn(bt, SumRange(s, o, k, FALSE), t)
+        /\ (o + q <= Len(s) => ~WinIn(bt, SumRange(s, o, o + q, FALSE), t))
+WindowBounded(s, leads, bt, t) ==
+  \A o \in DOMAIN s : LET w == WindowSeries(s, leads, bt, t)[o] IN IsNaN(w) \/ (Ge(w, Zero) /\ Le(w, R(leads[Len(s)] - leads[o])))
+
 \* ---- expandverif: observations re-arranged by valid time ----
 \* output times: every day on which the input has an initialisation time, at each requested hour
 ExpandTimes(times, hours) == SortInts({(t \div 86400) * 86400 + h * 3600 : t \in Elems(times), h \in Elems(hours)})
